@@ -1,9 +1,20 @@
 #include <algorithm>
 #include <iterator>
 #include <nano/core/parallel.h>
+#ifdef NANO_VERIF
+    #include <cstdlib>
+#endif
 
 using namespace nano;
 using namespace nano::parallel;
+
+#ifdef NANO_VERIF
+std::atomic<nano::verif::callback_t>& nano::verif::callback()
+{
+    static std::atomic<callback_t> the_callback{nullptr};
+    return the_callback;
+}
+#endif
 
 queue_t::queue_t() = default;
 
@@ -23,10 +34,13 @@ void worker_t::operator()() const
         {
             std::unique_lock lock(m_queue.m_mutex);
 
+            NANO_VERIF_POINT(worker_wait, &m_queue, m_tnum);
             m_queue.m_condition.wait(lock, [&] { return m_queue.m_stop || !m_queue.m_tasks.empty(); });
+            NANO_VERIF_POINT(worker_woke, &m_queue, m_tnum);
 
             if (m_queue.m_stop)
             {
+                NANO_VERIF_POINT(worker_stop, &m_queue, m_tnum);
                 m_queue.m_tasks.clear();
                 m_queue.m_condition.notify_all();
                 break;
@@ -34,11 +48,15 @@ void worker_t::operator()() const
 
             task = std::move(m_queue.m_tasks.front());
             m_queue.m_tasks.pop_front();
+            NANO_VERIF_POINT(worker_popped, &m_queue, m_tnum);
         }
 
         // execute the task
+        NANO_VERIF_POINT(worker_run, &m_queue, m_tnum);
         task(m_tnum);
+        NANO_VERIF_POINT(worker_ran, &m_queue, m_tnum);
     }
+    NANO_VERIF_POINT(worker_exit, &m_queue, m_tnum);
 }
 
 void section_t::block(const bool raise)
@@ -47,7 +65,9 @@ void section_t::block(const bool raise)
     {
         if (future.valid())
         {
+            NANO_VERIF_POINT(block_begin, this, 0U);
             raise ? future.get() : future.wait();
+            NANO_VERIF_POINT(block_end, this, 0U);
         }
     }
 }
@@ -78,19 +98,30 @@ pool_t::pool_t(const size_t threads)
 
 size_t pool_t::max_size()
 {
+#ifdef NANO_VERIF
+    if (const auto* const value = std::getenv("NANO_VERIF_MAX_THREADS"); value != nullptr)
+    {
+        return std::max(size_t(1), static_cast<size_t>(std::strtoul(value, nullptr, 10)));
+    }
+#endif
     return std::max(size_t(1), static_cast<size_t>(std::thread::hardware_concurrency()));
 }
 
 pool_t::~pool_t()
 {
+    NANO_VERIF_POINT(pool_stop_begin, &m_queue, 0U);
     {
         const std::scoped_lock lock(m_queue.m_mutex);
         m_queue.m_stop = true;
+        NANO_VERIF_POINT(pool_stop_set, &m_queue, 0U);
     }
     m_queue.m_condition.notify_all();
+    NANO_VERIF_POINT(pool_stop_notified, &m_queue, 0U);
 
     for (auto& thread : m_threads)
     {
+        NANO_VERIF_POINT(pool_join_begin, &m_queue, 0U);
         thread.join();
+        NANO_VERIF_POINT(pool_join_end, &m_queue, 0U);
     }
 }
